@@ -91,6 +91,26 @@ fn vp_native_request_wire_roundtrip_body() {
             }
         }
     }
+    // every method (CONNECT is not a request a caller can build) carries every kind of body the same way, also the methods that
+    // usually have none (GET, HEAD, DELETE, OPTIONS, TRACE) and extension methods
+    for m in ["GET", "POST", "PUT", "DELETE", "HEAD", "OPTIONS", "PATCH", "TRACE", "PROPFIND", "M-SEARCH"] {
+        let method = http::Method::from_bytes(m.as_bytes()).unwrap();
+        for (what, pieces, chunked) in [("known length", vec![piece(5, 1)], false), ("chunked", vec![piece(5, 1), piece(9000, 2)], true), ("empty chunked", vec![], true), ("empty known length", vec![], false)] {
+            let want: Vec<u8> = pieces.concat();
+            let mut req = crate::RequestBuilder::new(method.clone(), "http://h.test/p").body(Writes { pieces: pieces.clone(), chunked }).prepare();
+            let mut wire = Vec::new(); let url = req.url().clone();
+            set_host(&mut req.headers, &url).unwrap();
+            req.write_request(&mut wire, &url, None).unwrap();
+            let r = decode_request(&wire); cases += 1;
+            assert_eq!(r.method, m);
+            assert!(r.body == want && r.trailing.is_empty(), "{} with a {} body: {} of {} body bytes decoded, {} stray bytes (headers {:?})", m, what, r.body.len(), want.len(), r.trailing.len(), r.headers.iter().map(|(n, v)| format!("{}: {}", n, String::from_utf8_lossy(v))).collect::<Vec<_>>());
+        }
+        let mut req = crate::RequestBuilder::new(method.clone(), "http://h.test/p").text("body text").prepare();
+        let mut wire = Vec::new(); let url = req.url().clone();
+        req.write_request(&mut wire, &url, None).unwrap();
+        let r = decode_request(&wire); cases += 1;
+        assert!(r.body == b"body text" && r.trailing.is_empty(), "{} with a text body", m);
+    }
     // library bodies
     for text in ["", "hello", "héllo wörld"] {
         let mut req = crate::RequestBuilder::new(http::Method::PUT, "http://h.test/").text(text).prepare();
